@@ -243,6 +243,7 @@ class SymExec:
         self.axioms = []
         self.nsqrt = 0
         self.pows = []
+        self.sqrts = []
         self.init = {}
 
     def fresh_input(self, name, sort='Real'):
@@ -306,11 +307,18 @@ class SymExec:
         if k == 'call':
             if e[1] in ('cm_sqrt', 'sqrt') and len(e[2]) == 1:
                 a = self.term(e[2][0], pc, old)
+                for (a2, s2) in self.sqrts:
+                    if a2 == a:
+                        return '|%s|' % s2
                 self.nsqrt += 1
                 s = 'sqrt!%d' % self.nsqrt
                 self.decls[s] = 'Real'
-                # real square root of a non-negative argument (for a negative one the result is unconstrained)
+                # real square root of a non-negative argument (for a negative one the result is unconstrained, but
+                # still a function of the argument: congruence with every other call)
                 self.axioms.append('(=> (>= %s 0.0) (and (>= |%s| 0.0) (= (* |%s| |%s|) %s)))' % (a, s, s, s, a))
+                for (a2, s2) in self.sqrts:
+                    self.axioms.append('(=> (= %s %s) (= |%s| |%s|))' % (a, a2, s, s2))
+                self.sqrts.append((a, s))
                 return '|%s|' % s
             if e[1] in ('cm_pow', 'pow') and len(e[2]) == 2:
                 # pow is UNINTERPRETED: a fresh real per call, made functional by Ackermann congruence axioms
